@@ -88,8 +88,8 @@ def cpp_parser(p):
         rl.append(s)
     terms = ", ".join(f"t{i}" for i in range(len(p["terms"]))); nts = ", ".join(f"n{i}" for i in range(len(p["nts"])))
     body = f"parser(n{ntidx[p['root']]}, terms({terms}), nterms({nts}), rules(\n    " + ",\n    ".join(rl) + "))"
-    if p["constexpr"]: L.append(f"constexpr auto p = {body};\ninline const auto& get() {{ return p; }}\n// the same parser constructed at run time (C07: both must be the same object and behave alike)\ninline const auto& get_rt() {{ static const auto q = {body}; return q; }}")
-    else: L.append(f"inline const auto& get() {{ static const auto p = {body}; return p; }}")
+    if p["constexpr"]: L.append(f"constexpr auto p = {body};\ninline const auto& get() {{ return p; }}\n// the same parser constructed at run time (C07: both must be the same object and behave alike)\ninline const auto& get_rt() {{ static const auto q = h3::at_run_time([] {{ return {body}; }}); return q; }}")
+    else: L.append(f"inline const auto& get() {{ static const auto p = h3::at_run_time([] {{ return {body}; }}); return p; }}")
     L.append("}")
     return "\n".join(L)
 
